@@ -38,7 +38,9 @@ impl LazyRegex {
         match &self.compiled {
             Some(regex) => regex.is_match(value),
             None => {
-                if self.original.is_empty() {
+                // an empty node prefix is compiled to ".*", which matches everything; an empty
+                // leaf pattern is compiled to "^$" and must go through the regex like any other
+                if self.regex == ".*" {
                     true
                 } else {
                     match self.create_regex() {
